@@ -964,7 +964,7 @@ impl Property for C14 {
     }
     fn runs(&self, tier: Tier) -> usize {
         match tier {
-            Tier::Quick => 4000,
+            Tier::Quick => 12_000,
             Tier::Thorough => 80_000,
         }
     }
@@ -1020,7 +1020,11 @@ impl Property for C14 {
         // (a) wire log of a simulated conversation read back through read_command
         let mut crng = Rng::stream(run_seed, "config");
         let use_pdr = crng.chance(1, 3);
-        let sys = gen_system(&mut rng, 7, 3, use_pdr, |_| {});
+        let sys = if use_pdr {
+            gen_bounded_system(&mut rng, 7, 3, true, 8, |_| {})
+        } else {
+            gen_system(&mut rng, 7, 3, false, |_| {})
+        };
         let scn = McScenario {
             sys,
             cfg: McCfg {
